@@ -113,6 +113,7 @@ type c18Watch struct {
 	evs      []c18Event
 	seen     int64
 	next     int64
+	maxRev   int64 // highest mod revision delivered by the ordered stream
 	timedOut bool
 	broken   string
 }
@@ -125,6 +126,9 @@ func (wt *c18Watch) loop(wch clientv3.WatchChan) {
 		}
 		for _, ev := range resp.Events {
 			k := string(ev.Kv.Key)
+			if ev.Kv.ModRevision > wt.maxRev {
+				wt.maxRev = ev.Kv.ModRevision
+			}
 			if k == c18Sentinel {
 				if ev.Type == clientv3.EventTypePut {
 					if n, err := strconv.ParseInt(string(ev.Kv.Value), 10, 64); err == nil && n > wt.seen {
@@ -186,6 +190,34 @@ func (wt *c18Watch) sync(admin *clientv3.Client) ([]c18Event, error) {
 	}
 	if wt.seen < n {
 		return nil, errors.New("watchdog: sentinel not observed within 60s")
+	}
+	out := wt.evs
+	wt.evs = nil
+	return out, nil
+}
+
+// waitRev (OUTSIDE the bubble) returns every event up to store revision rev. Every revision of this etcd
+// is a write under /kafscale/ (lease keys and the sentinel), so the stream carries an event for each one;
+// rev is the header revision of the response to the request executed in this step, which is >= the
+// revision of that request's own write.
+func (wt *c18Watch) waitRev(rev int64) ([]c18Event, error) {
+	tm := time.AfterFunc(60*time.Second, func() {
+		wt.mu.Lock()
+		wt.timedOut = true
+		wt.cond.Broadcast()
+		wt.mu.Unlock()
+	})
+	defer tm.Stop()
+	wt.mu.Lock()
+	defer wt.mu.Unlock()
+	for wt.maxRev < rev && !wt.timedOut && wt.broken == "" {
+		wt.cond.Wait()
+	}
+	if wt.broken != "" {
+		return nil, errors.New("watch broken: " + wt.broken)
+	}
+	if wt.maxRev < rev {
+		return nil, fmt.Errorf("watchdog: revision %d not observed within 60s", rev)
 	}
 	out := wt.evs
 	wt.evs = nil
@@ -369,6 +401,7 @@ type c18Node struct {
 	closed  bool // client closed
 	crashed bool
 	shut    bool // ReleaseAll was called on this instance
+	lastRev int64
 }
 
 func (n *c18Node) name() string {
@@ -385,6 +418,7 @@ type c18Gate struct {
 	deletes bool
 	ch      chan int
 	result  string
+	rev     int64 // header revision of the response (0: none / unknown -> sentinel round trip)
 }
 
 type c18Actor struct {
@@ -450,6 +484,8 @@ type c18World struct {
 	staleWindows, handovers, probes, nSync                       int
 	lockEvs                                                      []c18LEv
 	curExpire                                                    *c18Lease
+	curRev                                                       int64
+	nRevWait                                                     int
 	curEligible                                                  bool
 	nBatch, nDelayed                                             int
 	mode                                                         string
@@ -524,6 +560,13 @@ func (w *c18World) leaseLabel(id int64) string {
 	return fmt.Sprintf("L?%x", id)
 }
 
+// noteRev is called from inside an exec closure (outside the bubble, one request in flight per node step).
+func (n *c18Node) noteRev(rev int64) {
+	n.w.mu.Lock()
+	n.lastRev = rev
+	n.w.mu.Unlock()
+}
+
 // gated is the boundary every etcd request of a manager passes through.
 func (n *c18Node) gated(kind, desc string, deletes bool, exec func(ctx context.Context) (string, error)) error {
 	w := n.w
@@ -550,11 +593,15 @@ func (n *c18Node) gated(kind, desc string, deletes bool, exec func(ctx context.C
 	}
 	var err error
 	var res string
+	w.mu.Lock()
+	n.lastRev = 0
+	w.mu.Unlock()
 	// context.Background(): with a cancellable context gRPC starts one more goroutine per call, which is
 	// expensive under the race detector; a hung etcd is caught by the leg's go-test timeout (exit 3)
 	w.e.out.do(func() { res, err = exec(context.Background()) })
 	if g != nil {
 		w.mu.Lock()
+		g.rev = n.lastRev
 		if err != nil {
 			g.result = "error: " + err.Error()
 		} else {
@@ -586,6 +633,9 @@ func (k *c18KV) Put(ctx context.Context, key, val string, opts ...clientv3.OpOpt
 	err := k.n.gated("put", fmt.Sprintf("put(%s=%s)", key, val), false, func(ctx context.Context) (string, error) {
 		var e error
 		resp, e = k.n.real.KV.Put(ctx, key, val, opts...)
+		if e == nil {
+			k.n.noteRev(resp.Header.Revision)
+		}
 		return "ok", e
 	})
 	if err != nil {
@@ -615,6 +665,7 @@ func (k *c18KV) Delete(ctx context.Context, key string, opts ...clientv3.OpOptio
 		if e != nil {
 			return "", e
 		}
+		k.n.noteRev(resp.Header.Revision)
 		return fmt.Sprintf("deleted=%d", resp.Deleted), nil
 	})
 	if err != nil {
@@ -710,6 +761,7 @@ func (t *c18Txn) Commit() (*clientv3.TxnResponse, error) {
 		if e != nil {
 			return "", e
 		}
+		t.n.noteRev(resp.Header.Revision)
 		return fmt.Sprintf("succeeded=%v", resp.Succeeded), nil
 	})
 	if err != nil {
@@ -1045,6 +1097,13 @@ func (w *c18World) afterGate(st c18Step, g *c18Gate) bool {
 	if g.deletes && g.kind == "txn" {
 		cause = "txn-delete"
 	}
+	w.mu.Lock()
+	w.curRev = 0
+	if cause == "txn" || cause == "txn-delete" || cause == "delete" || cause == "put" {
+		w.curRev = g.rev
+	}
+	w.mu.Unlock()
+	defer func() { w.curRev = 0 }()
 	return w.afterCause(st, g.node, cause)
 }
 
@@ -1072,8 +1131,13 @@ func (w *c18World) afterCause(st c18Step, by *c18Node, cause string) bool {
 	// only a request that reached etcd (or an expiry) can have produced events; every such step is
 	// followed by a sentinel round trip, so events are attributed to exactly this step
 	if cause != "" && cause != "grant" && cause != "get" && cause != "resp" && st.Outcome != c18OutcomeName[c18FailBefore] {
-		w.e.out.do(func() { evs, err = w.e.watch.sync(w.e.admin) })
-		w.nSync++
+		if rev := w.curRev; rev > 0 {
+			w.e.out.do(func() { evs, err = w.e.watch.waitRev(rev) })
+			w.nRevWait++
+		} else {
+			w.e.out.do(func() { evs, err = w.e.watch.sync(w.e.admin) })
+			w.nSync++
+		}
 	}
 	if err != nil {
 		w.trouble = err.Error()
@@ -1603,17 +1667,8 @@ func (w *c18World) cleanup() {
 		}
 	}
 	synctest.Wait()
-	ids := make([]clientv3.LeaseID, 0, len(w.leases))
-	for _, ls := range w.leases {
-		ids = append(ids, ls.id)
-	}
-	w.e.out.do(func() {
-		for _, id := range ids {
-			ctx, cancel := context.WithTimeout(context.Background(), 10*time.Second)
-			_, _ = w.e.admin.Revoke(ctx, id)
-			cancel()
-		}
-	})
+	// leases are not revoked: the keys of a case are unique to it, nothing refreshes the leases, and
+	// skipping ~3 raft writes per case is a large part of a short schedule's cost
 }
 
 func (w *c18World) signature() string {
@@ -1648,7 +1703,8 @@ func (w *c18World) finishCase(name string, sample bool) {
 	r.Count("handovers", int64(w.handovers))
 	r.Count("points_with_stale_believer_and_new_owner", int64(w.staleWindows))
 	r.Count("probe_acquires", int64(w.probes))
-	r.Count("watch_syncs", int64(w.nSync))
+	r.Count("watch_syncs_by_sentinel", int64(w.nSync))
+	r.Count("watch_syncs_by_response_revision", int64(w.nRevWait))
 	r.Count("delayed_responses", int64(w.nDelayed))
 	r.Count("notice_simultaneous_with_response", int64(w.nBatch))
 	r.Count("cases_"+w.flavour, 1)
@@ -2078,7 +2134,7 @@ func (w *c18World) sample(rng interface {
 
 // ---------------------------------------------------------------------------
 
-const c18Rule = "real PartitionLeaseManager/GroupLeaseManager instances (3 broker ids, restarts) against one embedded etcd; every etcd request they issue (Grant, Txn, Delete, Revoke) is parked at a gate and released one at a time by the scheduler inside a synctest bubble, optionally failing before/after its effect; session loss is split into server-side expiry (harness revokes the lease) and client-side notice (harness closes the keep-alive channel). After EVERY step, once all manager goroutines are quiescent and a WithPrevKV watch on /kafscale/ has been synchronised through a sentinel key: (a) violation if two brokers have Owns(r)==true and neither belief is excused; a belief is excused only while the etcd lease under which that broker's claim on r was written has expired on the server and the broker's keep-alive channel for it is still open (the window inherent to leases); if exactly one such firm believer exists while the etcd key is absent, one more broker P runs Acquire(r) and P succeeding is the same violation; (b) violation if a DELETE event of a lease key carries a previous value naming a broker other than the one whose Release/ReleaseAll/expiry step caused it. (c) per resource, the history of Acquire/Release/ReleaseAll calls (with results), expiry/notice/restart events and every Owns() observation is checked with porcupine against a lock model (a failing Acquire is always legal; Owns()==false gives the lock up; an expired-but-untold broker is excused). Scripted schedules (stale release, restart+reacquire, early notice, release racing own acquire, lost responses …) for both flavours, then PRNG schedules; non-trivial = a resource was held by two different brokers over the case and a release/expiry/restart/close occurred"
+const c18Rule = "real PartitionLeaseManager/GroupLeaseManager instances (3 broker ids, restarts) against one embedded etcd; every etcd request they issue (Grant, Txn, Delete, Revoke) is parked at a gate and released one at a time by the scheduler inside a synctest bubble, optionally failing before/after its effect; session loss is split into server-side expiry (harness revokes the lease) and client-side notice (harness closes the keep-alive channel). After EVERY step, once all manager goroutines are quiescent and a WithPrevKV watch on /kafscale/ has been synchronised (up to the response's header revision, or through a sentinel key after expiry/revoke): (a) violation if two brokers have Owns(r)==true and neither belief is excused; a belief is excused only while the etcd lease under which that broker's claim on r was written has expired on the server and the broker's keep-alive channel for it is still open (the window inherent to leases); if exactly one such firm believer exists while the etcd key is absent, one more broker P runs Acquire(r) and P succeeding is the same violation; (b) violation if a DELETE event of a lease key carries a previous value naming a broker other than the one whose Release/ReleaseAll/expiry step caused it. (c) per resource, the history of Acquire/Release/ReleaseAll calls (with results), expiry/notice/restart events and every Owns() observation is checked with porcupine against a lock model (a failing Acquire is always legal; Owns()==false gives the lock up; an expired-but-untold broker is excused). Scripted schedules (stale release, restart+reacquire, early notice, release racing own acquire, lost responses …) for both flavours, then PRNG schedules; non-trivial = a resource was held by two different brokers over the case and a release/expiry/restart/close occurred"
 
 func TestVerifC18Sched(t *testing.T) {
 	r := verifkit.Start(t, "C18", "sched")
